@@ -157,6 +157,12 @@ StoreOps.vos StoreOps.vok StoreOps.required_vos: StoreOps.v
 StoreOpsFacts.vo StoreOpsFacts.glob StoreOpsFacts.v.beautified StoreOpsFacts.required_vo: StoreOpsFacts.v StoreOps.vo
 StoreOpsFacts.vio: StoreOpsFacts.v StoreOps.vio
 StoreOpsFacts.vos StoreOpsFacts.vok StoreOpsFacts.required_vos: StoreOpsFacts.v StoreOps.vos
+StoreCrash.vo StoreCrash.glob StoreCrash.v.beautified StoreCrash.required_vo: StoreCrash.v StoreOps.vo
+StoreCrash.vio: StoreCrash.v StoreOps.vio
+StoreCrash.vos StoreCrash.vok StoreCrash.required_vos: StoreCrash.v StoreOps.vos
+StoreCrashFacts.vo StoreCrashFacts.glob StoreCrashFacts.v.beautified StoreCrashFacts.required_vo: StoreCrashFacts.v StoreOps.vo StoreOpsFacts.vo StoreCrash.vo
+StoreCrashFacts.vio: StoreCrashFacts.v StoreOps.vio StoreOpsFacts.vio StoreCrash.vio
+StoreCrashFacts.vos StoreCrashFacts.vok StoreCrashFacts.required_vos: StoreCrashFacts.v StoreOps.vos StoreOpsFacts.vos StoreCrash.vos
 Owners.vo Owners.glob Owners.v.beautified Owners.required_vo: Owners.v 
 Owners.vio: Owners.v 
 Owners.vos Owners.vok Owners.required_vos: Owners.v 
